@@ -421,6 +421,12 @@ func (c *canon) val(v ssa.Value, d int) string {
 				if st := localFieldStore(a); st != nil {
 					return c.val(st.Val, d)
 				}
+				if al, ok := a.X.(*ssa.Alloc); ok {
+					// struct value returned by a call and kept in a local: `st := f(); st.Field`
+					if sts := storesTo(al); len(sts) == 1 && !capturedAndWritten(al) {
+						return c.val(sts[0].Val, d) + "." + fieldName(a.X.Type(), a.Field)
+					}
+				}
 				return c.val(a.X, d) + "." + fieldName(a.X.Type(), a.Field)
 			case *ssa.IndexAddr:
 				return c.val(a.X, d) + c.index(a.Index, d)
